@@ -113,6 +113,12 @@ func cmdMigrate(args []string) {
 					for _, ei := range ord {
 						e := edges[ei]
 						errbase.RegisterTypeMigration(e.prevPkg, e.prevName, e.newType)
+						// the keys are in use between registrations (errors are compared / encoded while
+						// packages are still initialising): nothing computed now may go stale later
+						for i := 0; i < n; i++ {
+							_ = errbase.GetTypeKey(fam.types[i])
+							_ = errors.Is(fam.types[i], fam.types[(i+1)%n])
+						}
 					}
 					reg = errbase.VerifMigrations()
 					for i := 0; i < n; i++ {
@@ -352,6 +358,38 @@ func cmdMigrate(args []string) {
 		}
 		if !errors.Is(dec, local) || !errors.Is(local, dec) {
 			fail(id, "Is does not recognise a path error received from a peer built before the rename", "")
+		}
+	}()
+	// ---- (d) a renamed error type that is itself a protobuf message (no decoder: the payload is the error) ----
+	func() {
+		id := "C17-proto-error-renamed"
+		ncases++
+		evals++
+		defer func() {
+			if p := recover(); p != nil {
+				fail(id, "panic: "+fmt.Sprint(p), "")
+			}
+		}()
+		restore := errbase.TestingWithEmptyMigrationRegistry()
+		defer restore()
+		errbase.RegisterTypeMigration("old/proto/pkg", "*pkg.OldProtoError", &errorspb.TestError{})
+		const oldName = "old/proto/pkg/*pkg.OldProtoError"
+		local := &errorspb.TestError{}
+		if k := string(errbase.GetTypeKey(local)); k != oldName {
+			fail(id, fmt.Sprintf("the renamed protobuf error type is encoded under %q, not under its original name %q", k, oldName), "")
+			return
+		}
+		for hop, cur := 1, error(errors.WithHint(local, "h")); hop <= 2; hop++ {
+			cur = transferOnce(cur, nil)
+			root := errors.UnwrapAll(cur)
+			if _, ok := root.(*errorspb.TestError); !ok {
+				fail(id, fmt.Sprintf("after hop %d an error arriving under the original name of a renamed protobuf error type is a %T, not the local type", hop, root), "")
+				return
+			}
+			if !errors.Is(cur, local) || !errors.HasType(cur, local) {
+				fail(id, fmt.Sprintf("after hop %d Is / HasType do not recognise the renamed protobuf error", hop), "")
+				return
+			}
 		}
 	}()
 	_ = strings.Join
